@@ -159,6 +159,12 @@ def check_trim(db, chk, rule: str) -> None:
             runs = I.explore(ref2, role_args, closure)
             runs = [r for r in runs if r.raised is None and isinstance(r.ret, Frame)]
             tag = f"[include_last={inc}]"
+            untouched = [r_ for r_ in runs if r_.path and r_.ret.base == TR and r_.ret.rows == T.TRUE]
+            if untouched and len(runs) > 1:
+                # a path of the per-rank trim that hands the rank's frame back as it came: this rank keeps its trailing step (the guard for fewer than two steps sits in front of the per-rank function)
+                chk.ob(rule, f"{tag} per-rank trim: every rank is trimmed (no path returns the rank's frame untouched)", False, where2, found=[T.show(r_.cond())[:160] for r_ in untouched], accepted="no data-dependent way out of the trim",
+                       why="a rank that did not record the step some OTHER rank ends with (or whose own last step has a lower number) keeps its trailing step and everything after it")
+                continue
             if len(runs) != 1 or runs[0].ret.base[0] != "concat":
                 chk.ob(rule, f"{tag} per-rank trim: one path returning concat(device part, host part)", None, where2, found=len(runs))
                 continue
